@@ -16,7 +16,9 @@ import traceback
 ROOT = os.path.dirname(os.path.dirname(os.path.abspath(__file__)))
 sys.path.insert(0, ROOT)
 
-from . import repo, smt, lib  # noqa
+from . import smt  # noqa
+smt.early_pool()
+from . import repo, lib  # noqa
 from .spec import REGISTRY, LEMMAS, USED_LEMMAS  # noqa
 from .verify import verify_contract  # noqa
 from .engine import Oblig  # noqa
